@@ -606,7 +606,7 @@ def replay(chk, path):
         if kind == case["kind"] and sig == case.get("signature", sig):
             new = dict(case)
             new["detail"] = detail
-            chk.violation("replay", new, "still fails: %s" % detail[:200])
+            chk.violation(os.path.splitext(os.path.basename(path))[0], new, "still fails: %s" % detail[:200])
             break
     else:
         print("replay: the recorded failure (%s) does not occur any more%s" % (
